@@ -184,6 +184,80 @@ func (s *Sess) checkEvents(op *Op, exp []ExpEvent) {
 			return
 		}
 	}
+	s.replay(op)
+}
+
+// replicaEnt is what a consumer of the event stream knows about an entity.
+type replicaEnt struct {
+	comps  map[int]bool
+	target ecs.Entity
+}
+
+// replay applies the events of the last op to a replica that is built from events only
+// (created: add with Added; removed: delete; otherwise apply Added/Removed; target as reported by
+// Relations.Get at delivery), and compares the replica with the model.
+func (s *Sess) replay(op *Op) {
+	if s.replica == nil || op.K == "Reset" || op.K == "ResetLoad" || op.K == "LoadEntities" {
+		// epoch boundary: no events are specified for these operations
+		s.replica = map[ecs.Entity]*replicaEnt{}
+		for e, me := range s.M.Alive {
+			r := &replicaEnt{comps: map[int]bool{}, target: me.Target}
+			for id := range me.Comps {
+				r.comps[id] = true
+			}
+			s.replica[e] = r
+		}
+		return
+	}
+	for i := range s.rec {
+		r := &s.rec[i]
+		e := r.Ev.Entity
+		switch {
+		case r.Ev.EventTypes&EvCreated != 0:
+			re := &replicaEnt{comps: map[int]bool{}, target: r.Target}
+			for _, id := range r.Added {
+				re.comps[id] = true
+			}
+			s.replica[e] = re
+		case r.Ev.EventTypes&EvRemoved != 0:
+			delete(s.replica, e)
+		default:
+			re := s.replica[e]
+			if re == nil {
+				s.fail("event.replay", "event for %v which the replayed stream does not know", e)
+				return
+			}
+			for _, id := range r.Added {
+				re.comps[id] = true
+			}
+			for _, id := range r.Removed {
+				delete(re.comps, id)
+			}
+			re.target = r.Target
+		}
+	}
+	if len(s.replica) != len(s.M.Alive) {
+		s.fail("event.replay", "replaying the event stream gives %d entities, the world has %d", len(s.replica), len(s.M.Alive))
+		return
+	}
+	for e, me := range s.M.Alive {
+		re := s.replica[e]
+		if re == nil {
+			s.fail("event.replay", "replaying the event stream does not yield entity %v", e)
+			return
+		}
+		if len(re.comps) != len(me.Comps) || re.target != me.Target {
+			s.fail("event.replay", "replaying the event stream gives %v components %v target %v, the world has %v target %v", e, re.comps, re.target, me.IDs(), me.Target)
+			return
+		}
+		for id := range me.Comps {
+			if !re.comps[id] {
+				s.fail("event.replay", "replaying the event stream gives %v without component %d", e, id)
+				return
+			}
+		}
+	}
+	s.Cov.N["replica_compares"]++
 }
 
 func isBatchKind(k string) bool {
